@@ -83,6 +83,10 @@ type Client struct {
 	RtSeed string   // VERIF_RTSEED ("" = leave runtime randomness alone)
 	Watch  []string
 	Stdin  []byte
+	// StdinChunks, if set, is delivered through a pipe one chunk per write,
+	// sleeping StdinGaps[i] milliseconds before chunk i.
+	StdinChunks [][]byte
+	StdinGaps   []int
 
 	Stdout, Stderr bytes.Buffer
 	ExitCode       int
@@ -287,12 +291,35 @@ func (s *Sim) startClient(c *Client, sock string) error {
 	cmd.Env = env
 	cmd.Stdout = &c.Stdout
 	cmd.Stderr = &c.Stderr
-	if c.Stdin != nil {
+	var stdinW *os.File
+	if c.StdinChunks != nil {
+		// A pipe the simulator owns: the chunking of the stream is ours to decide.
+		pr, pw, err := os.Pipe()
+		if err != nil {
+			return infra("pipe: %v", err)
+		}
+		cmd.Stdin = pr
+		stdinW = pw
+		defer pr.Close()
+	} else if c.Stdin != nil {
 		cmd.Stdin = bytes.NewReader(c.Stdin)
 	}
 	cmd.SysProcAttr = &syscall.SysProcAttr{Setpgid: true}
 	if err := cmd.Start(); err != nil {
 		return infra("start client %s: %v", c.Tag, err)
+	}
+	if stdinW != nil {
+		go func() {
+			for i, ch := range c.StdinChunks {
+				if i < len(c.StdinGaps) && c.StdinGaps[i] > 0 {
+					time.Sleep(time.Duration(c.StdinGaps[i]) * time.Millisecond)
+				}
+				if _, err := stdinW.Write(ch); err != nil {
+					break
+				}
+			}
+			stdinW.Close()
+		}()
 	}
 	c.cmd = cmd
 	c.pgid = cmd.Process.Pid
